@@ -1,39 +1,7 @@
 ---------------------------- MODULE MC_ZLoadS ----------------------------
-(* Scenario-driven model of the loader (C05 C06 C07 C08 C12 C13 C14 C15    *)
-(* C16 C19).  Schemas and environment tables are generated TLA+ text; the  *)
-(* scenarios themselves are read from the JSON file named by TRACE_FILE:   *)
-(*   scn      sequence of [sid, main, opts, want]                          *)
-(*   res      resource id -> lines (sequences of character tokens)         *)
-(*   resolve  "<rid>|<argument>" -> resource id ("" = cannot be opened)    *)
-(*   pkgs     %import argument -> [ok, types, impl]                        *)
-EXTENDS ZLoadS, IOUtils
-
-@GENERATED@
-
-(* Non-ASCII white space used by layout rewrites (str.isspace() is true    *)
-(* for each; stated here, checked against Python by the harness).          *)
-MCExtSpace == {"~u3000;", "~ua0;", "~u2003;"}
-
-TFile == JsonDeserialize(IOEnv.TRACE_FILE)
-Scn   == TFile.scn
-
-MCKeyConvOf(kt, tok) == IF <<kt, tok>> \in DOMAIN KeyTab THEN KeyTab[<<kt, tok>>]
-                        ELSE [ok |-> FALSE, v |-> ""]
-MCConvOf(dt, text)   == IF dt \in {"string", "null"} THEN [ok |-> TRUE, v |-> "'" \o text \o "'"]
-                        ELSE IF <<dt, text>> \in DOMAIN ConvTab THEN ConvTab[<<dt, text>>]
-                        ELSE [ok |-> FALSE, v |-> ""]
-MCSecConvOf(dt, sv)  == CASE dt = "null"   -> [ok |-> TRUE, v |-> sv]
-                          [] dt = "wrap"   -> [ok |-> TRUE, v |-> [wrapped |-> sv]]
-                          [] dt = "reject" -> [ok |-> FALSE, v |-> sv]
-MCResLines(rid)      == TFile.res[rid]
-MCResolve(rid, arg)  == LET k == rid \o "|" \o arg
-                        IN  IF k \in DOMAIN TFile.resolve THEN TFile.resolve[k] ELSE ""
-MCPackage(name)      == IF name \in DOMAIN MCPackages THEN MCPackages[name] ELSE [ok |-> FALSE]
-MCScnSchema(i)       == Scn[i].sid
-MCScnMain(i)         == Scn[i].main
-MCScnOpts(i)         == Scn[i].opts
-MCScnTwin(i)         == Scn[i].twin
-MCScnCulprit(i)      == Scn[i].culprit
+(* Scenario-driven model of the loader (C05 C06 C07 C08 C14 C15 C16): the  *)
+(* machine ZLoadS in the environment MC_ZLoadEnv.                          *)
+EXTENDS ZLoadS, MC_ZLoadEnv
 
 Spec == SInit2 /\ [][SNext2]_svars2
 
